@@ -20,10 +20,16 @@ def scenario(rng, nthreads):
     for h in range(1, nthreads + 1):
         j = rng.randint(0, 1)
         sub = []
+        cur = {}
         for _ in range(rng.randint(0, 6)):
             k = rng.randint(1, nkeys)
             r = rng.random()
-            sub.append("T %d: %s %d %d" % (h, "tset" if r < 0.4 else "trepl" if r < 0.75 else "tget", k, newval() if r < 0.75 else 0))
+            op = "tset" if r < 0.4 else "trepl" if r < 0.75 else "tget"
+            # replacing a value with itself is a replacement too: the notifier runs for the value that was stored
+            v = 0 if op == "tget" else (cur[k] if op == "trepl" and k in cur and rng.random() < 0.35 else newval())
+            if op != "tget":
+                cur[k] = v
+            sub.append("T %d: %s %d %d" % (h, op, k, v))
         sub.append("T %d: write %d" % (h, newval()))
         sub.append("T %d: exit %d" % (h, rng.choice([0, 1, 7, -5, 255, 2147483647])) if rng.random() < 0.6 else "T %d: ret" % h)
         lines += sub
@@ -49,10 +55,15 @@ def scenario(rng, nthreads):
         per.append(ops)
     # main-thread TLS use
     mops = []
+    mcur = {}
     for _ in range(rng.randint(0, 4)):
         k = rng.randint(1, nkeys)
         r = rng.random()
-        mops.append("%s %d %d" % ("tset" if r < 0.3 else "trepl" if r < 0.7 else "tget", k, newval() if r < 0.7 else 0))
+        op = "tset" if r < 0.3 else "trepl" if r < 0.7 else "tget"
+        v = 0 if op == "tget" else (mcur[k] if op == "trepl" and k in mcur and rng.random() < 0.35 else newval())
+        if op != "tget":
+            mcur[k] = v
+        mops.append("%s %d %d" % (op, k, v))
     per.append(mops)
     # random interleaving preserving each list's order
     idx = [0] * len(per)
